@@ -82,7 +82,7 @@ fn main() {
         let mut o = GenOpts::default();
         o.tags = TagMode::Never;
         o.max_text_len = 60;
-        o.max_window = 8;
+        o.max_window = if k % 4 == 0 { 12 } else { 8 };
         let case = gen_case(&mut rng, &o);
         let bytes = case.model.to_bytes();
         let mut wsconst: String = (0..rng.below(4)).map(|_| WS[rng.below(7)]).collect();
@@ -105,6 +105,14 @@ fn main() {
                 texts.push(to_string(&vgen::text::text_from(&mut rng, &a, n)));
             }
             texts.push("ラ－メン―を–食べ─る".to_string());
+        }
+        // texts whose byte length is exactly three times their character count without being all 3-byte
+        for t in ["a𠮷𠮷", "𠮷é", "x𠮷𠮷野家", "\n𠮷𠮷", "ab𠮷𠮷𠮷𠮷人"] {
+            texts.push(t.to_string());
+        }
+        // a text that starts with the model's first character n-gram (patterns overhanging the left edge)
+        if let Some(g) = case.model.char_ngram_model.first() {
+            texts.push(format!("{}{}", g.ngram, texts[0]));
         }
         texts.push(String::new());
         texts.push("テ\u{3099}ータは\u{3099}か\u{3099}ハ\u{309a}ン".to_string());
